@@ -1,6 +1,7 @@
 /-
   C10 model driver. One S-expression per line in, one per line out.
 
+    (def DEF)                                                                → ok      -- remembers DEF; later requests may write `cur` for it
     (introspect DEF (registry "n"…) (impls ("I" "o"…)…) (features "f"…))   → (intro …) | (error "…")
     (accepted   DEF (registry "n"…) (impls ("I" "o"…)…))                    → (accepted wf closed implsExact kindsOk featuresOk namesOk)  (six booleans)
     (new DEF)                                                                → (reg (registry "n"…) (impls ("I" "o"…)…))
@@ -347,7 +348,10 @@ def err (msg : String) : String := toString (Sexp.node "error" [.atom msg])
 def mkSchema (d : GDef) (reg : List String) (impls : List (String × List String)) : Schema :=
   { defn := d.erase, namedTypes := reg, impls := impls }
 
-def handle (line : String) : String :=
+def handleWith (cur : Option GDef) (line : String) : String :=
+  let pDef := fun (x : Sexp) => match x with
+    | Sexp.atom "cur" => cur
+    | _ => pDef x
   match Sexp.parse line with
   | some (.list [.atom "introspect", d, reg, impls, feats]) =>
     match pDef d, pRegistry reg, pImpls impls, pFeatures feats with
@@ -400,4 +404,11 @@ def handle (line : String) : String :=
 
 end C10Driver
 
-def main : IO Unit := ApiFu.lineLoopPure C10Driver.handle
+def main : IO Unit :=
+  ApiFu.lineLoop (fun (cur : Option ApiFu.C10.GDef) line =>
+    match ApiFu.Sexp.parse line with
+    | some (.list [.atom "def", d]) =>
+      match C10Driver.pDef d with
+      | some g => (some g, "ok")
+      | none => (cur, C10Driver.err "bad-arguments")
+    | _ => (cur, C10Driver.handleWith cur line)) none
